@@ -289,7 +289,7 @@ func (runInfo *runInfoStruct) callVMFunctionDirect(f reflect.Value, callExpr *as
 		if runInfo.err != nil {
 			return true
 		}
-		args = append(args, runInfo.rv)
+		args = append(args, detachValue(runInfo.rv))
 	}
 
 	if !runInfo.options.Debug {
@@ -433,7 +433,7 @@ func (runInfo *runInfoStruct) makeCallArgs(rt reflect.Type, isRunVMFunction bool
 			return nil, false
 		}
 		if isRunVMFunction {
-			args = append(args, reflect.ValueOf(runInfo.rv))
+			args = append(args, reflect.ValueOf(detachValue(runInfo.rv)))
 		} else {
 			runInfo.rv, runInfo.err = convertReflectValueToType(runInfo.rv, rt.In(indexInReal))
 			if runInfo.err != nil {
@@ -461,7 +461,7 @@ func (runInfo *runInfoStruct) makeCallArgs(rt reflect.Type, isRunVMFunction bool
 			return nil, false
 		}
 		if isRunVMFunction {
-			args = append(args, reflect.ValueOf(runInfo.rv))
+			args = append(args, reflect.ValueOf(detachValue(runInfo.rv)))
 		} else {
 			runInfo.rv, runInfo.err = convertReflectValueToType(runInfo.rv, rt.In(indexInReal))
 			if runInfo.err != nil {
@@ -500,7 +500,7 @@ func (runInfo *runInfoStruct) makeCallArgs(rt reflect.Type, isRunVMFunction bool
 		sliceV := runInfo.rv
 		for indexInReal < numInReal {
 			if isRunVMFunction {
-				args = append(args, reflect.ValueOf(sliceV.Index(indexSlice)))
+				args = append(args, reflect.ValueOf(detachValue(sliceV.Index(indexSlice))))
 			} else {
 				runInfo.rv, runInfo.err = convertReflectValueToType(sliceV.Index(indexSlice), rt.In(indexInReal))
 				if runInfo.err != nil {
@@ -534,7 +534,7 @@ func (runInfo *runInfoStruct) makeCallArgs(rt reflect.Type, isRunVMFunction bool
 			return nil, false
 		}
 		if isRunVMFunction {
-			args = append(args, reflect.ValueOf(runInfo.rv))
+			args = append(args, reflect.ValueOf(detachValue(runInfo.rv)))
 		} else {
 			runInfo.rv, runInfo.err = convertReflectValueToType(runInfo.rv, rt.In(indexInReal))
 			if runInfo.err != nil {
